@@ -82,15 +82,206 @@ def _count_test(c, recs):
     return None
 
 
+def _analyse(prog, f, recs, flags, summaries, collect_reads=True):
+    """Partitioned forward analysis.  Returns (reads, exits) where reads = [(line, rec, K, count, text)] and
+    exits = [(return class 'T'/'F'/'?', {rec: count})]."""
+    reads = []
+    exits = []
+    cfg = f.cfg
+
+    def helper_call(e):
+        """(helper summary, record) if e is a call to a summarised helper whose first argument is a tracked record"""
+        e = strip(e)
+        if e.get('kind') != 'CallExpr':
+            return None
+        for c in prog.callees(f.unit, e):
+            sm = summaries.get(getattr(c, 'key', None))
+            if sm is None:
+                return None
+            args = children(e)[1:]
+            if sm['param'] < len(args):
+                r = access_path(args[sm['param']])
+                if r in recs:
+                    return sm, r
+        return None
+
+    def tested_call(c):
+        """for a condition that tests a helper call: (summary, record, class on the true edge)"""
+        s0 = strip_parens(c)
+        k = s0.get('kind')
+        if k == 'UnaryOperator' and s0.get('opcode') == '!':
+            t = tested_call(children(s0)[0])
+            return (t[0], t[1], 'F' if t[2] == 'T' else 'T') if t else None
+        if k == 'BinaryOperator' and s0.get('opcode') in ('==', '!='):
+            a, b = children(s0)
+            for x, y in ((a, b), (b, a)):
+                v = int_value(y)
+                h = helper_call(x)
+                if h and isinstance(v, int):
+                    eq_cls = 'T' if v != 0 else 'F'
+                    cls = eq_cls if s0.get('opcode') == '==' else ('F' if eq_cls == 'T' else 'T')
+                    return h[0], h[1], cls
+            return None
+        h = helper_call(s0)
+        if h:
+            return h[0], h[1], 'T'
+        return None
+
+    def transfer(n, st, skip_call=None):
+        if not isinstance(n.ast, dict) or n.kind == 'macro':
+            return st
+        s = dict(st)
+        lhs_ids = set()
+        for x in walk(n.ast):
+            if x.get('kind') == 'BinaryOperator' and x.get('opcode') == '=':
+                lhs_ids.add(id(strip_parens(children(x)[0])))
+        for x in walk(n.ast):
+            if x.get('kind') == 'ArraySubscriptExpr' and id(x) not in lhs_ids:
+                b = strip(children(x)[0])
+                if b.get('kind') == 'MemberExpr' and b.get('name') == 'argv':
+                    r = access_path(children(b)[0])
+                    k = int_value(children(x)[1])
+                    if r in recs and isinstance(k, int):
+                        reads.append((x.get('_line'), r, k, s.get(('lb', r), 0), canon(x)))
+        for ev in node_events(n):
+            if ev[0] == 'assign':
+                l = strip(ev[1])
+                if l.get('kind') == 'DeclRefExpr':
+                    nm = (l.get('referencedDecl') or {}).get('name')
+                    if nm in recs and not collect_reads is False:
+                        s[('lb', nm)] = 0
+                    if nm in flags:
+                        s[('flag', nm)] = int_value(ev[2])
+                elif l.get('kind') == 'MemberExpr' and l.get('name') == 'argc':
+                    r = access_path(children(l)[0])
+                    if r in recs:
+                        s[('lb', r)] = 0
+            elif ev[0] == 'decl':
+                nm = ev[1].get('name')
+                if nm in flags and ev[2] is not None:
+                    s[('flag', nm)] = int_value(ev[2])
+                if nm in recs:
+                    s[('lb', nm)] = 0
+            elif ev[0] == 'update':
+                l = strip(ev[1])
+                if l.get('kind') == 'MemberExpr' and l.get('name') == 'argc':
+                    r = access_path(children(l)[0])
+                    x = ev[2]
+                    if r in recs:
+                        if x.get('kind') == 'UnaryOperator' and x.get('opcode') == '++':
+                            s[('lb', r)] = min(CAP, s.get(('lb', r), 0) + 1)
+                        else:
+                            s[('lb', r)] = 0
+            elif ev[0] == 'call' and ev[1] is not skip_call:
+                h = helper_call(ev[1])
+                if h:
+                    sm, r = h
+                    s[('lb', r)] = min(CAP, s.get(('lb', r), 0) + min(sm['gain'].values()))
+        return frozenset(s.items())
+
+    def branch(n, st, lab, tested):
+        if not isinstance(n.ast, dict):
+            return st
+        if tested:
+            sm, r, cls_true = tested
+            cls = cls_true if lab == 'T' else ('F' if cls_true == 'T' else 'T')
+            s = dict(st)
+            s[('lb', r)] = min(CAP, s.get(('lb', r), 0) + sm['gain'].get(cls, min(sm['gain'].values())))
+            return frozenset(s.items())
+        ct = _count_test(n.ast, recs)
+        if ct:
+            s = dict(st)
+            c = s.get(('lb', ct[0]), 0)
+            op, K = ct[1], ct[2]
+            if lab == 'F':
+                op = {'==': '!=', '!=': '==', '<': '>=', '>=': '<', '>': '<=', '<=': '>'}[op]
+            if c < CAP:
+                holds = {'==': c == K, '!=': c != K, '<': c < K, '>=': c >= K, '>': c > K, '<=': c <= K}[op]
+                return st if holds else None
+            if K < CAP:
+                holds = {'==': False, '!=': True, '<': False, '>=': True, '>': True, '<=': False}[op]
+                return st if holds else None
+            return st
+        t = _flag_test(n.ast, flags)
+        if not t:
+            return st
+        s = dict(st)
+        val = t[1] if lab == 'T' else 1 - t[1]
+        known = s.get(('flag', t[0]))
+        if known is not None and known != val:
+            return None
+        s[('flag', t[0])] = val
+        return frozenset(s.items())
+
+    table = {cfg.entry.id: {frozenset((('lb', r), 0) for r in recs)}}
+    work = [(cfg.entry, next(iter(table[cfg.entry.id])))]
+    seen = set()
+    steps = 0
+    while work:
+        n, st = work.pop()
+        if (n.id, st) in seen:
+            continue
+        seen.add((n.id, st))
+        steps += 1
+        if steps > 300000:
+            raise AnalysisBroken('%s: argv-cell analysis does not converge' % f.name)
+        tested = tested_call(n.ast) if (n.kind == 'cond' and isinstance(n.ast, dict) and summaries) else None
+        skip = None
+        if tested:
+            for x in walk(n.ast):
+                if x.get('kind') == 'CallExpr' and helper_call(x):
+                    skip = x
+        out = transfer(n, st, skip)
+        for (sx, lab) in n.succs:
+            o2 = out
+            if lab in ('T', 'F'):
+                o2 = branch(n, out, lab, tested)
+                if o2 is None:
+                    continue
+            if sx is cfg.exit:
+                cls = '?'
+                if isinstance(n.ast, dict) and n.ast.get('kind') == 'ReturnStmt' and children(n.ast):
+                    v = int_value(children(n.ast)[0])
+                    if isinstance(v, int):
+                        cls = 'T' if v != 0 else 'F'
+                d = dict(o2)
+                exits.append((cls, {r: d.get(('lb', r), 0) for r in recs}))
+                continue
+            # drop None-valued flags for a canonical key
+            o2 = frozenset((k, v) for (k, v) in o2 if v is not None)
+            work.append((sx, o2))
+    return reads, exits
+
+
 def rule_argv_cells(prog, rep, unit='src/extensions/qaconf.c', rid='CU4'):
     rep.rule(rid, 'a cell rec->argv[K] of the per-line record is read only after at least K+1 store-and-count steps on every path '
                   'since the record was allocated (reads of uninitialised heap cells in error paths included)')
     prog.unit(unit)
+    # helper summaries: static functions that count cells of a record handed in as a parameter
+    summaries = {}
+    for f in prog.funcs_in(unit):
+        if f.body is None or not f.static:
+            continue
+        for i, p in enumerate(f.params):
+            if 'cbdata' not in (qtype(p) or ''):
+                continue
+            pn = p.get('name')
+            incs = any(x.get('kind') == 'UnaryOperator' and x.get('opcode') == '++' and strip(children(x)[0]).get('kind') == 'MemberExpr'
+                       and strip(children(x)[0]).get('name') == 'argc' and access_path(children(strip(children(x)[0]))[0]) == pn
+                       for x in walk(f.body))
+            allocs = any(x.get('kind') == 'BinaryOperator' and x.get('opcode') == '=' and canon(children(x)[0]) == pn for x in walk(f.body))
+            if incs and not allocs:
+                _reads, exits = _analyse(prog, f, {pn}, _flag_locals(f), {}, collect_reads=False)
+                gain = {}
+                for (cls, d) in exits:
+                    gain[cls] = min(gain.get(cls, CAP), d[pn])
+                if gain:
+                    summaries[f.key] = {'param': i, 'gain': gain, 'name': f.name}
+    rep.notes['CU4_helper_summaries'] = {v['name']: v['gain'] for v in summaries.values()}
     total = 0
     for f in sorted(prog.funcs_in(unit), key=lambda x: x.line or 0):
         if f.body is None:
             continue
-        # records allocated in this function: locals assigned from malloc/calloc whose type has argc/argv
         recs = set()
         for x in walk(f.body):
             if x.get('kind') == 'BinaryOperator' and x.get('opcode') == '=':
@@ -100,128 +291,7 @@ def rule_argv_cells(prog, rep, unit='src/extensions/qaconf.c', rid='CU4'):
                         recs.add((l.get('referencedDecl') or {}).get('name'))
         if not recs:
             continue
-        flags = _flag_locals(f)
-        reads = []
-
-        def transfer(n, st):
-            if not isinstance(n.ast, dict) or n.kind == 'macro':
-                return st
-            s = dict(st)
-            # reads first (evaluation of the node's expressions), then effects
-            lhs_ids = set()
-            for x in walk(n.ast):
-                if x.get('kind') == 'BinaryOperator' and x.get('opcode') == '=':
-                    lhs_ids.add(id(strip_parens(children(x)[0])))
-            for x in walk(n.ast):
-                if x.get('kind') == 'ArraySubscriptExpr' and id(x) not in lhs_ids:
-                    b = strip(children(x)[0])
-                    if b.get('kind') == 'MemberExpr' and b.get('name') == 'argv':
-                        r = access_path(children(b)[0])
-                        k = int_value(children(x)[1])
-                        if r in recs and isinstance(k, int):
-                            reads.append((x.get('_line'), r, k, s.get(('lb', r), 0), canon(x)))
-            for ev in node_events(n):
-                if ev[0] == 'assign':
-                    l = strip(ev[1])
-                    if l.get('kind') == 'DeclRefExpr':
-                        nm = (l.get('referencedDecl') or {}).get('name')
-                        if nm in recs:
-                            s[('lb', nm)] = 0
-                        if nm in flags:
-                            v = int_value(ev[2])
-                            s[('flag', nm)] = v
-                    elif l.get('kind') == 'MemberExpr' and l.get('name') == 'argc':
-                        r = access_path(children(l)[0])
-                        if r in recs:
-                            s[('lb', r)] = 0
-                elif ev[0] == 'decl':
-                    nm = ev[1].get('name')
-                    if nm in flags and ev[2] is not None:
-                        s[('flag', nm)] = int_value(ev[2])
-                    if nm in recs:
-                        s[('lb', nm)] = 0
-                elif ev[0] == 'update':
-                    l = strip(ev[1])
-                    if l.get('kind') == 'MemberExpr' and l.get('name') == 'argc':
-                        r = access_path(children(l)[0])
-                        x = ev[2]
-                        if r in recs:
-                            if x.get('kind') == 'UnaryOperator' and x.get('opcode') == '++':
-                                s[('lb', r)] = min(CAP, s.get(('lb', r), 0) + 1)
-                            else:
-                                s[('lb', r)] = 0
-            return frozenset(s.items())
-
-        def branch(n, st, lab):
-            if not isinstance(n.ast, dict):
-                return st
-            ct = _count_test(n.ast, recs)
-            if ct:
-                s = dict(st)
-                c = s.get(('lb', ct[0]), 0)
-                op, K = ct[1], ct[2]
-                if lab == 'F':
-                    op = {'==': '!=', '!=': '==', '<': '>=', '>=': '<', '>': '<=', '<=': '>'}[op]
-                if c < CAP:
-                    holds = {'==': c == K, '!=': c != K, '<': c < K, '>=': c >= K, '>': c > K, '<=': c <= K}[op]
-                    return st if holds else None
-                if K < CAP:       # c stands for "CAP or more"
-                    holds = {'==': False, '!=': True, '<': False, '>=': True, '>': True, '<=': False}[op]
-                    return st if holds else None
-                return st
-            t = _flag_test(n.ast, flags)
-            if not t:
-                return st
-            s = dict(st)
-            val = t[1] if lab == 'T' else 1 - t[1]
-            known = s.get(('flag', t[0]))
-            if known is not None and known != val:
-                return None
-            s[('flag', t[0])] = val
-            return frozenset(s.items())
-
-        # worklist over (node, flag valuation) partitions; within a partition the bounds are joined by minimum
-        cfg = f.cfg
-
-        def split(st):
-            d = dict(st)
-            # the flag valuation and the (saturating) cell counts form the partition key: nothing is joined
-            fl = frozenset((k, v) for k, v in d.items() if k[0] in ('flag', 'lb') and v is not None)
-            return fl, {}
-
-        table = {cfg.entry.id: {frozenset(): {}}}
-        work = [(cfg.entry, frozenset())]
-        steps = 0
-        while work:
-            n, fl = work.pop()
-            steps += 1
-            if steps > 200000:
-                raise AnalysisBroken('%s: argv-cell analysis does not converge' % f.name)
-            lbs = table[n.id][fl]
-            st = frozenset(list(fl) + list(lbs.items()))
-            out = transfer(n, st)
-            for (sx, lab) in n.succs:
-                o2 = out
-                if lab in ('T', 'F'):
-                    o2 = branch(n, out, lab)
-                    if o2 is None:
-                        continue
-                fl2, lb2 = split(o2)
-                slot = table.setdefault(sx.id, {})
-                old = slot.get(fl2)
-                if old is None:
-                    slot[fl2] = dict(lb2)
-                    work.append((sx, fl2))
-                else:
-                    changed = False
-                    for k in set(old) | set(lb2):
-                        m = min(old.get(k, 0), lb2.get(k, 0))
-                        if old.get(k) != m:
-                            old[k] = m
-                            changed = True
-                    if changed:
-                        work.append((sx, fl2))
-        # the transfer function records reads for every state it is applied to: aggregate per read site (minimum bound)
+        reads, _exits = _analyse(prog, f, recs, _flag_locals(f), summaries)
         by = {}
         for (line, r, k, lb, txt) in reads:
             key = (line, r, k, txt)
